@@ -17,7 +17,8 @@ RULE = ("every operation (havespace, putscript, checkscript, deletescript, setac
         "renamescript native, getscript, listscripts, capability) x status OK/NO/BYE x "
         "response code (absent, atom, atom with slash, TAG/SASL/REFERRAL with a string "
         "parameter, WARNINGS) x text (absent, quoted plain / with escaped quote / with "
-        "backslash / non-ASCII, literal one-line / multi-line / empty) - the full product; "
+        "backslash / non-ASCII / 1022, 1023, 1024 octets (the quoted-string maximum), literal "
+        "one-line / multi-line / empty / 1024, 1025, 4096, 70000 octets) - the full product; "
         "plus NO/BYE at each step of connect and of the emulated rename (this product is "
         "enumerated completely in both tiers); plus random replies from the grammar (random "
         "code atoms with slashes, string parameters, texts with escapes / non-ASCII / CRLF / "
@@ -41,7 +42,8 @@ SHARD_TIMEOUT = {"quick": 600, "thorough": 3000}
 CODES = [("none", None), ("atom", b"QUOTA"), ("slash", b"QUOTA/MAXSCRIPTS"),
          ("nonexistent", b"NONEXISTENT"), ("tag-param", b'TAG "abc"'),
          ("sasl-param", b'SASL "YWJj"'), ("referral", b'REFERRAL "sieve://h.example/"'),
-         ("warnings", b"WARNINGS"), ("active", b"ACTIVE")]
+         ("warnings", b"WARNINGS"), ("active", b"ACTIVE"),
+         ("tag-param-1024", b'TAG "' + b"t" * 1024 + b'"')]
 TEXTS = [("none", None, None), ("quoted", b"Quota exceeded", "quoted"),
          ("quoted-escq", b'say "hi" now', "quoted"), ("quoted-bsl", b"back\\slash", "quoted"),
          ("quoted-utf8", "déjà vu €".encode(), "quoted"),
@@ -49,7 +51,13 @@ TEXTS = [("none", None, None), ("quoted", b"Quota exceeded", "quoted"),
          ("quoted-lit-lookalike", b"{5}", "quoted"),
          ("literal", b"line one", "literal"), ("literal-multi", b"line 1\r\nline 2", "literal"),
          ("literal-empty", b"", "literal"), ("quoted-empty", b"", "quoted"),
-         ("literal-ok-lookalike", b'OK "fake"\r\nNO more', "literal")]
+         ("literal-ok-lookalike", b'OK "fake"\r\nNO more', "literal"),
+         # RFC 5804: a quoted string holds at most 1024 octets; longer text needs a literal
+         ("quoted-1022", b"q" * 1022, "quoted"), ("quoted-1023", b"q" * 1023, "quoted"),
+         ("quoted-1024", b"q" * 1024, "quoted"),
+         ("quoted-1024-utf8", "é".encode() * 512, "quoted"),
+         ("literal-1024", b"l" * 1024, "literal"), ("literal-1025", b"l" * 1025, "literal"),
+         ("literal-4096", b"l" * 4096, "literal"), ("literal-70000", b"l" * 70000, "literal")]
 BOOL_OPS = {"havespace": ("x", 10), "putscript": ("x", "keep;"), "checkscript": ("keep;",),
             "deletescript": ("x",), "setactive": ("x",), "renamescript": ("x", "y")}
 DATA_OPS = {"getscript": ("x",), "listscripts": (), "capability": ()}
